@@ -661,6 +661,83 @@ def HNode.genesis (ct : ChainType) (g : FHdr) : HNode :=
   { ct := ct, hdrs := [g], blocks := [g.hash], head := Tip.ofHdr g, headerHead := Tip.ofHdr g,
     hmmr := [g.hash] }
 
+/-! ### `prev_root`: what a header commits to about its ancestors
+
+`HeaderExtension::validate_root(header)`: `self.root()? != header.prev_root → InvalidRoot`, where the
+extension's PMMR has one leaf per ancestor.  `PMMR::push(header)` hashes the leaf as
+`header.hash_with_index(pos)`, i.e. the header **in hash mode** (`Writeable for BlockHeader`: the
+packed proof nonces only) behind its position; the `HeaderEntry` (hash, timestamp, total difficulty,
+scaling, secondary flag) is the leaf's stored data and does not enter the root.  In the node model above that comparison is the Boolean `rootOk` of a
+delivered header.  Here it is **computed**: every stored header carries the header MMR as it is after
+that header (`Pmmr.push` of its hash-mode bytes `leaf` on its parent's MMR), and a delivered header's flag is
+`root(parent's MMR) = prev_root` — for every header of a chunk, the chunk's earlier headers included. -/
+
+section roots
+variable {α H : Type} [DecidableEq H]
+
+/-- a delivered header with its MMR leaf and the `prev_root` it carries -/
+structure RHdr (α H : Type) where
+  f : FHdr
+  /-- what `PMMR::push` hashes behind the position: the header in hash mode -/
+  leaf : α
+  prevRoot : H
+
+/-- stored headers with the header MMR (backend hashes) as it is after each of them -/
+abbrev RStore (α H : Type) := List (RHdr α H × List H)
+
+def rLookup (rs : RStore α H) (k : Nat) : Option (RHdr α H × List H) := rs.find? (fun x => x.1.f.hash == k)
+
+/-- does `prev_root` equal the root of the MMR of the header's predecessors? (`m`: that MMR) -/
+def rootMatches (hf : Pmmr.HashFn α H) (m : List H) (r : RHdr α H) : Bool :=
+  decide (Pmmr.root hf m = .ok r.prevRoot)
+
+/-- a delivered header with its `rootOk` computed against the recorded MMR of its parent, and the
+MMR after it -/
+def flagOne (hf : Pmmr.HashFn α H) (rs : RStore α H) (r : RHdr α H) : RHdr α H × List H :=
+  match rLookup rs r.f.prevHash with
+  | none => ({ r with f := { r.f with rootOk := false } }, [])
+  | some (_, m) =>
+    ({ r with f := { r.f with rootOk := rootMatches hf m r } }, (Pmmr.push hf m r.leaf).getD m)
+
+/-- the headers of a chunk in order, each against the store extended by the earlier ones -/
+def flagChunk (hf : Pmmr.HashFn α H) : RStore α H → List (RHdr α H) → List (RHdr α H × List H)
+  | _, [] => []
+  | rs, r :: rest =>
+    let y := flagOne hf rs r
+    y :: flagChunk hf (y :: rs) rest
+
+/-- a node whose root comparisons are computed -/
+structure RNode (α H : Type) where
+  n : HNode
+  rs : RStore α H
+
+def RNode.genesis (hf : Pmmr.HashFn α H) (ct : ChainType) (g : RHdr α H) : RNode α H :=
+  { n := HNode.genesis ct g.f, rs := [(g, (Pmmr.push hf [] g.leaf).getD [])] }
+
+/-- `sync_block_headers` with computed root comparisons -/
+def syncR (hf : Pmmr.HashFn α H) (N : RNode α H) (opts : Opts) (sh : Tip) (chunk : List (RHdr α H)) :
+    Except NErr (RNode α H × Bool) :=
+  let c := flagChunk hf N.rs chunk
+  match processBlockHeaders N.n opts sh (c.map (·.1.f)) with
+  | .error e => .error e
+  | .ok (n', b) => .ok ({ n := n', rs := c.reverse ++ N.rs }, b)
+
+/-- `process_block_header` with the computed root comparison (the header is recorded iff stored) -/
+def pbhR (hf : Pmmr.HashFn α H) (N : RNode α H) (opts : Opts) (r : RHdr α H) : Except NErr (RNode α H) :=
+  let y := flagOne hf N.rs r
+  match nodeProcessBlockHeader N.n opts y.1.f with
+  | .error e => .error e
+  | .ok n' => .ok { n := n', rs := if n'.hdrs.length > N.n.hdrs.length then y :: N.rs else N.rs }
+
+/-- `process_block` with the computed root comparison -/
+def pbR (hf : Pmmr.HashFn α H) (N : RNode α H) (opts : Opts) (r : RHdr α H) (bodyOk : Bool) :
+    RNode α H × Except NErr Unit :=
+  let y := flagOne hf N.rs r
+  let (n', res) := nodeProcessBlock N.n opts y.1.f bodyOk
+  ({ n := n', rs := if n'.hdrs.length > N.n.hdrs.length then y :: N.rs else N.rs }, res)
+
+end roots
+
 /-! ### `global.rs`: thread-local parameters with a global fallback
 
 Chain type, accept-fee base, future time limit and the NRD flag live in a `thread_local!`
